@@ -43,6 +43,8 @@ Proof.
       match fs path with
       | None => ([Open path false; Send (r_notfound cfg); Close], Done)
       | Some content =>
+          if term_overflows subst content
+          then ([Open path true; Send (r_ok cfg); Send (content_type fname'); Send s_crlf], Crash (Overflow 8)) else
           match body_effects cfg params subst (chunks (S (length content)) chunk_len content) with
           | None => ([Open path true; Send (r_ok cfg); Send (content_type fname'); Send s_crlf], Crash (Overflow 6))
           | Some body =>
@@ -55,7 +57,7 @@ Proof.
     set (fname' := if list_eqb fname s_slash then s_index else fname).
     destruct (Zlength (httpDir cfg) + Zlength fname' + 1 >? C20_FULLFNAME_SIZE); [fe|].
     destruct (fs (httpDir cfg ++ fname')) as [content|]; [|fe].
-    destruct (body_effects cfg params (ends_with_vnc fname') (chunks (S (length content)) chunk_len content)) as [body|] eqn:Eb; [|fe].
+    rewrite term_fits; destruct (body_effects cfg params (ends_with_vnc fname') (chunks (S (length content)) chunk_len content)) as [body|] eqn:Eb; [|fe].
     simpl fst. repeat (apply Forall_cons; [first [fe_close | fe_send | fe_open]|]).
     apply Forall_app; split; [apply sends_file; eapply body_effects_sends; eauto| fe]. }
   destruct (match q with None => POk [] | Some qs => parse_params v qs C20_PARAMS_MAX end) as [r| |e].
@@ -127,10 +129,20 @@ Proof.
   - apply proxy_stage_effects in Ep. destruct Ep as [Ep _]. congruence.
 Qed.
 
-(* whenever the connection is handed over, the request was CONNECT or GET and proxying is on *)
+(* the two request forms httpd.c hands over to the RFB server:
+   "CONNECT " ... ':' <number equal to the RFB port>   (strchr(buf, ':'), atoi(colon + 1) == port), and
+   "GET " ... where the text from the first '/' on starts with "/proxied.connection HTTP/1." *)
+Definition proxy_request (cfg : config) (s : str) : Prop :=
+  (is_prefix s_CONNECT s = true /\
+   exists i, index_of c_colon s = Some i /\ atoi (skipn (S i) s) = port cfg) \/
+  (is_prefix s_CONNECT s = false /\ is_prefix s_GET s = true /\
+   exists i, index_of c_slash s = Some i /\
+             is_prefix (firstn (Z.to_nat C20_PROXIED_CMP_LEN) s_proxied) (skipn i s) = true).
+
+(* whenever the connection is handed over, proxying is on and the request has one of these forms *)
 Theorem proxy_only_on_request : forall v cfg segs,
   In NewRfbClient (fst (http_process fs v cfg segs)) ->
-  proxy cfg = true /\ exists s, request_of segs = Some s /\ (is_prefix s_CONNECT s = true \/ is_prefix s_GET s = true).
+  proxy cfg = true /\ exists s, request_of segs = Some s /\ proxy_request cfg s.
 Proof.
   intros v cfg segs. unfold http_process, http_process_n, request_of.
   destruct (Zlength (httpDir cfg) >? C20_DIR_MAX). { simpl. intros [H|[]]; discriminate. }
@@ -140,9 +152,21 @@ Proof.
   unfold process_request. destruct (proxy_stage v cfg (cstr b)) as [|e st] eqn:Ep.
   - intro H. pose proof (get_stage_file_effects v cfg (cstr b)) as F. rewrite Forall_forall in F.
     apply F in H. destruct H as [H|[[x H]|[p [ok H]]]]; discriminate.
-  - intros _. pose proof (proxy_stage_effects _ _ _ _ _ Ep) as [Hp _]. split; auto.
-    exists (cstr b). split; auto. unfold proxy_stage in Ep. rewrite Hp in Ep. cbn [negb] in Ep.
-    destruct (is_prefix s_CONNECT (cstr b)); auto. destruct (is_prefix s_GET (cstr b)); auto. discriminate.
+  - cbn [fst]. intros Hin. pose proof (proxy_stage_effects _ _ _ _ _ Ep) as [Hp _]. split; auto.
+    exists (cstr b). split; auto. unfold proxy_stage, proxy_request in *. rewrite Hp in Ep. cbn [negb] in Ep.
+    destruct (is_prefix s_CONNECT (cstr b)).
+    + left. split; auto. destruct (index_of c_colon (cstr b)) as [i|].
+      * exists i. split; auto.
+        destruct (atoi (skipn (S i) (cstr b)) =? port cfg) eqn:Ea; cbn [negb] in Ep.
+        -- apply Z.eqb_eq; exact Ea.
+        -- inversion Ep; subst. exfalso. destruct Hin as [H|[H|[]]]; discriminate.
+      * exfalso. destruct (nullchk v); inversion Ep; subst; [destruct Hin as [H|[H|[]]]; discriminate|destruct Hin].
+    + right. split; auto. destruct (is_prefix s_GET (cstr b)); [|discriminate]. split; auto.
+      destruct (index_of c_slash (cstr b)) as [i|].
+      * exists i. split; auto.
+        destruct (is_prefix (firstn (Z.to_nat C20_PROXIED_CMP_LEN) s_proxied) (skipn i (cstr b))); auto.
+        cbn [andb] in Ep. discriminate.
+      * destruct (nullchk v); inversion Ep; subst. destruct Hin.
 Qed.
 
 (* anything outside the GET grammar (and not a proxy request on a proxy-enabled server) yields only
